@@ -62,6 +62,10 @@ def main(pid, tier):
   spec = importlib.import_module("props." + pid.lower())
   cfg_dir = env.build_cfg()
   jobs = spec.jobs(tier)
+  only = os.environ.get("VERIF_ONLY_JOBS")   # development aid: a sub-run never rewrites evidence/
+  if only:
+    jobs = [j for j in jobs if j.name in only.split(",")]
+    os.environ.setdefault("VERIF_EVIDENCE_DIR", env.scratch_dir("evidence-partial"))
   known = load_known(pid)
   print("== %s tier=%s jobs=%d known_findings=%d" % (
       pid, tier, len(jobs), len(known)))
